@@ -44,8 +44,8 @@ var (
 	ipPool    = []string{"10.0.0.1", "192.168.1.7", "172.16.5.4", "10.0.0.5", "::1", "2001:db8::1",
 		// every hexadecimal letter in both cases, the first and the last ones included; the shortest addresses
 		"fe80::a", "FE80::1", "2001:db8::f00d", "abcd:ef01::A", "::", "::f", "a::"}
-	boolPool  = []string{"true", "false"}
-	junkPool  = []string{"abc", "n/a", "x5"}
+	boolPool = []string{"true", "false"}
+	junkPool = []string{"abc", "n/a", "x5"}
 
 	words = []string{"error", "warn", "info", "GET", "POST", "timeout", "user", "disk", "full", "retry", "ok", "Error:"}
 )
